@@ -44,6 +44,7 @@ class Contract:
         self.hints = []        # (anchor, label|None, text, is_obligation)
         self.rewrites = []     # (rule, count, old, new)
         self.prerewrites = []  # same, applied before the generic rules
+        self.closures = []     # (ordinal, new header): R13 by closure ordinal
         self.attrs = []
         self.serves = None
         self.mode = 'exec'
@@ -145,6 +146,11 @@ def parse_vc(path):
                 label = label.strip()
                 text = 'assert(%s);' % text.strip()
             cur.hints.append((anchor.strip(), label, text.strip('\n'), head == '@assert'))
+        elif head == '@closure':
+            mm = re.match(r'(\d+)\s*:\s*(.*)$', rest, re.S)
+            if not mm:
+                raise Unsupported("%s: bad @closure" % path)
+            cur.closures.append((int(mm.group(1)), mm.group(2).strip()))
         elif head == '@prerewrite':
             mm = re.match(r'(\S+)\s+(\d+)\s+(.*)$', rest, re.S)
             old, new = _parse_quoted(mm.group(3))
@@ -316,6 +322,72 @@ def rule_R4(text, log, fn_name):
         text = text[:mm.start()] + 'verif_format()' + text[close + 1:]
 
 
+def find_closures(text):
+    """closure literals in textual order: (start, body_start, body_end, body_is_block)"""
+    mask = code_mask(text)
+    res = []
+    i = 0
+    n = len(text)
+    while i < n:
+        if mask[i] and text[i] == '|' and not (i + 1 < n and text[i + 1] == '|' and False):
+            # closure start: previous significant char is one of ( , & = { ; or keyword move / return
+            k = i - 1
+            while k >= 0 and text[k].isspace():
+                k -= 1
+            prev = text[k] if k >= 0 else ''
+            prevword = re.search(r'(\w+)\s*$', text[:i])
+            starts = prev in '(,&={;' or (prevword and prevword.group(1) in ('move', 'return'))
+            if text[i:i + 2] == '||' and starts:
+                pe = i + 1  # no parameters
+            elif starts:
+                pe = text.find('|', i + 1)
+                while pe >= 0 and not mask[pe]:
+                    pe = text.find('|', pe + 1)
+            else:
+                pe = -1
+            if pe < 0:
+                i += 1
+                continue
+            j = pe + 1
+            while j < n and text[j].isspace():
+                j += 1
+            if text.startswith('->', j):
+                # return type up to the opening brace
+                b = text.find('{', j)
+                if b < 0:
+                    i = pe + 1
+                    continue
+                close = match_brace(text, mask, b)
+                res.append((i, b, close + 1, True))
+                i = close + 1
+                continue
+            if j < n and text[j] == '{':
+                close = match_brace(text, mask, j)
+                res.append((i, j, close + 1, True))
+                i = close + 1
+                continue
+            # expression body: up to the first depth-0 ',' or closing bracket
+            d = 0
+            e = j
+            while e < n:
+                if mask[e]:
+                    c = text[e]
+                    if c in '([{':
+                        d += 1
+                    elif c in ')]}':
+                        if d == 0:
+                            break
+                        d -= 1
+                    elif c in ',;' and d == 0:
+                        break
+                e += 1
+            res.append((i, j, e, False))
+            i = e
+            continue
+        i += 1
+    return res
+
+
 # ------------------------------------------------------------------------------------------
 # weaving one function
 # ------------------------------------------------------------------------------------------
@@ -349,6 +421,17 @@ def weave_fn(fn_text, contract, unit, log, features_on, in_trait_impl=False, rea
                 raise LostAnchor("%s: @rewrite %s expects %d occurrence(s) of %r, found %d" % (name, rule, count, old, n))
             text = text.replace(old, new)
             log.append(dict(rule=rule, fn=name, what='%r => %r (x%d)' % (old, new, count)))
+    # R13 by ordinal: the k-th closure literal of the function gets the given header; an expression body is wrapped in a block
+    if contract and contract.closures:
+        for (k, hdr) in sorted(contract.closures, reverse=True):
+            cl = find_closures(text)
+            if k < 1 or k > len(cl):
+                raise LostAnchor("%s: closure %d not found (function has %d closure literals)" % (name, k, len(cl)))
+            (cs, body_s, body_e, is_block) = cl[k - 1]
+            body = text[body_s:body_e]
+            new = hdr + ' ' + (body if is_block else '{ ' + body.strip() + ' }')
+            log.append(dict(rule='R13', fn=name, what='closure %d header: %s' % (k, ' '.join(hdr.split())[:120])))
+            text = text[:cs] + new + text[body_e:]
     # R23: constructor calls get an explicit type argument (the verified file has one impl per instance, the source one
     # generic impl, so `List::new()` would be ambiguous); a contract's @rewrite may pick a non-default instance first
     for tyname, targs in (type_args or {}).items():
